@@ -47,15 +47,15 @@ macro_rules! string_entry {
     };
 }
 
-string_entry!(EString, "string", StringRegion, clone: yes, serde: yes, model: yes, reserve: (|v| v),
+string_entry!(EString, "string", StringRegion, clone: yes, serde: yes, model: yes, reserve: [(|v| v), (|v| v.as_str())],
     flags: { structural: true });
 string_entry!(EStringDict, "string<codec-dict>", StringRegion<DictCodec>, clone: no, serde: no, model: no, reserve: none,
     flags: { coded: true });
 string_entry!(EStringLearn, "string<codec-learn>", StringRegion<LearnCodec>, clone: yes, serde: no, model: no, reserve: none,
     flags: { coded: true });
-string_entry!(EPairsString, "pairs<string,optimized>", Pairs<StringRegion, IO>, clone: yes, serde: yes, model: yes, reserve: (|v| v),
+string_entry!(EPairsString, "pairs<string,optimized>", Pairs<StringRegion, IO>, clone: yes, serde: yes, model: yes, reserve: [(|v| v), (|v| v.as_str())],
     flags: { idx_is_usize: true, dense: true });
-string_entry!(EPairsStringVec, "pairs<string,vec>", Pairs<StringRegion, Vec<usize>>, clone: yes, serde: yes, model: yes, reserve: (|v| v),
+string_entry!(EPairsStringVec, "pairs<string,vec>", Pairs<StringRegion, Vec<usize>>, clone: yes, serde: yes, model: yes, reserve: [(|v| v), (|v| v.as_str())],
     flags: { idx_is_usize: true, dense: true });
 string_entry!(EPairsStringList, "pairs<string,list>", Pairs<StringRegion, IL>, clone: yes, serde: yes, model: yes, reserve: (|v| v),
     flags: { idx_is_usize: true, dense: true });
@@ -131,9 +131,9 @@ macro_rules! owned_entry {
         }
     };
 }
-owned_entry!(EOwnedU8, "owned<u8>", OwnedRegion<u8>, u8, clone: yes, serde: yes, model: yes, reserve: (|v| v),
+owned_entry!(EOwnedU8, "owned<u8>", OwnedRegion<u8>, u8, clone: yes, serde: yes, model: yes, reserve: [(|v| v), (|v| v.as_slice()), (|v| PushIter(v.iter().copied()))],
     flags: { structural: true });
-owned_entry!(EOwnedU64, "owned<u64>", OwnedRegion<u64>, u64, clone: yes, serde: yes, model: yes, reserve: (|v| v),
+owned_entry!(EOwnedU64, "owned<u64>", OwnedRegion<u64>, u64, clone: yes, serde: yes, model: yes, reserve: [(|v| v), (|v| v.as_slice()), (|v| PushIter(v.iter().copied()))],
     flags: { structural: true });
 owned_entry!(EOwnedUnit, "owned<()>", OwnedRegion<()>, (), clone: yes, serde: yes, model: yes, reserve: (|v| v),
     flags: { structural: true });
@@ -141,7 +141,7 @@ owned_entry!(EOwnedString, "owned<String>", OwnedRegion<String>, String, clone: 
     flags: {});
 owned_entry!(EPairsOwnedU8, "pairs<owned<u8>,optimized>", Pairs<OwnedRegion<u8>, IO>, u8, clone: yes, serde: yes, model: yes, reserve: (|v| v),
     flags: { idx_is_usize: true, dense: true });
-owned_entry!(EPairsOwnedU8Vec, "pairs<owned<u8>,vec>", Pairs<OwnedRegion<u8>, Vec<usize>>, u8, clone: yes, serde: yes, model: yes, reserve: (|v| v),
+owned_entry!(EPairsOwnedU8Vec, "pairs<owned<u8>,vec>", Pairs<OwnedRegion<u8>, Vec<usize>>, u8, clone: yes, serde: yes, model: yes, reserve: [(|v| v), (|v| v.as_slice())],
     flags: { idx_is_usize: true, dense: true });
 owned_entry!(EPairsOwnedUnit, "pairs<owned<()>,optimized>", Pairs<OwnedRegion<()>, IO>, (), clone: yes, serde: yes, model: yes, reserve: (|v| v),
     flags: { idx_is_usize: true, dense: true });
@@ -187,7 +187,7 @@ macro_rules! mirror_entry {
         entry! { $name, $label, MirrorRegion<$T>,
             clone: yes, serde: yes, model: yes,
             flags: { $($flag: $fv),* },
-            reserve: (|v| v),
+            reserve: [(|v| v), (|v| *v)],
             canon: "&T" => |v| v,
             forms: [
                 "T" => |s, v, aux| s.put(*v),
@@ -330,7 +330,7 @@ entry! { ECollapseHuffmanU8, "collapse<huffman<u8>>", Collapse<HuffmanContainer<
 entry! { EOptionString, "option<string>", OptionRegion<StringRegion>,
     clone: yes, serde: yes, model: yes,
     flags: { stringy: true, structural: true },
-    reserve: (|v| v),
+    reserve: [(|v| v), (|v| v.as_deref()), (|v| v.as_ref())],
     canon: "&Option<String>" => |v| v,
     forms: [
         "Option<String>" => |s, v, aux| s.put(v.clone()),
@@ -343,7 +343,7 @@ entry! { EOptionString, "option<string>", OptionRegion<StringRegion>,
 entry! { EOptionMirrorU8, "option<mirror<u8>>", OptionRegion<MirrorRegion<u8>>,
     clone: yes, serde: yes, model: yes,
     flags: {},
-    reserve: (|v| v),
+    reserve: [(|v| v), (|v| *v)],
     canon: "&Option<u8>" => |v| v,
     forms: [
         "Option<u8>" => |s, v, aux| s.put(*v),
@@ -436,7 +436,7 @@ entry! { ETupleSliceOption, "tuple(slice<mirror<u8>>,option<string>)", TupleABRe
 entry! { EResultStringU8, "result<string,mirror<u8>>", ResultRegion<StringRegion, MirrorRegion<u8>>,
     clone: yes, serde: yes, model: yes,
     flags: { stringy: true, structural: true },
-    reserve: (|v| v),
+    reserve: [(|v| v), (|v| v.as_ref().map(|x| x.as_str()).map_err(|e| *e)), (|v| v.as_ref())],
     canon: "&Result" => |v| v,
     forms: [
         "Result" => |s, v, aux| s.put(v.clone()),
@@ -484,7 +484,7 @@ entry! { ETuple1String, "tuple(string)", TupleARegion<StringRegion>,
 entry! { ETuple2, "tuple(mirror<u8>,string)", TupleABRegion<MirrorRegion<u8>, StringRegion>,
     clone: yes, serde: yes, model: yes,
     flags: { stringy: true, structural: true },
-    reserve: (|v| v),
+    reserve: [(|v| v), (|v| (v.0, v.1.as_str())), (|v| (&v.0, &v.1))],
     canon: "&(u8,String)" => |v| v,
     forms: [
         "(u8,String)" => |s, v, aux| s.put(v.clone()),
@@ -571,13 +571,15 @@ macro_rules! slice_entry {
     };
 }
 
-slice_entry!(ESliceMirrorU8, "slice<mirror<u8>>", SliceRegion<MirrorRegion<u8>>, clone: yes, serde: yes, model: yes, reserve: (|v| v),
+slice_entry!(ESliceMirrorU8, "slice<mirror<u8>>", SliceRegion<MirrorRegion<u8>>, clone: yes, serde: yes, model: yes,
+    reserve: [(|v| v), (|v| v.as_slice()), (|v| <<SliceRegion<MirrorRegion<u8>> as Region>::ReadItem<'_> as IntoOwned>::borrow_as(v))],
     flags: { structural: true });
 slice_entry!(ESliceMirrorUsizeOpt, "slice<mirror<usize>,optimized>", SliceRegion<MirrorRegion<usize>, IO>, clone: yes, serde: yes, model: yes, reserve: (|v| v),
     flags: {});
 slice_entry!(ESliceMirrorUsizeList, "slice<mirror<usize>,list>", SliceRegion<MirrorRegion<usize>, IL>, clone: yes, serde: yes, model: yes, reserve: (|v| v),
     flags: {});
-slice_entry!(ESliceString, "slice<string>", SliceRegion<StringRegion>, clone: yes, serde: yes, model: yes, reserve: (|v| v),
+slice_entry!(ESliceString, "slice<string>", SliceRegion<StringRegion>, clone: yes, serde: yes, model: yes,
+    reserve: [(|v| v), (|v| v.as_slice())],
     flags: { stringy: true, structural: true });
 slice_entry!(ESliceOwnedU8, "slice<owned<u8>>", SliceRegion<OwnedRegion<u8>>, clone: yes, serde: yes, model: yes, reserve: (|v| v),
     flags: { structural: true });
@@ -587,7 +589,8 @@ slice_entry!(ESlicePairsStringVec, "slice<pairs<string>,vec>", SliceRegion<Pairs
     flags: { stringy: true });
 slice_entry!(ESlicePairsStringList, "slice<pairs<string,list>,list>", SliceRegion<Pairs<StringRegion, IL>, IL>, clone: yes, serde: yes, model: yes, reserve: (|v| v),
     flags: { stringy: true });
-slice_entry!(ESliceSliceU8, "slice<slice<mirror<u8>>>", SliceRegion<SliceRegion<MirrorRegion<u8>>>, clone: yes, serde: yes, model: yes, reserve: (|v| v),
+slice_entry!(ESliceSliceU8, "slice<slice<mirror<u8>>>", SliceRegion<SliceRegion<MirrorRegion<u8>>>, clone: yes, serde: yes, model: yes,
+    reserve: [(|v| v), (|v| v.as_slice()), (|v| <<SliceRegion<SliceRegion<MirrorRegion<u8>>> as Region>::ReadItem<'_> as IntoOwned>::borrow_as(v))],
     flags: { structural: true });
 slice_entry!(ESliceSliceString, "slice<slice<string>>", SliceRegion<SliceRegion<StringRegion>>, clone: yes, serde: yes, model: yes, reserve: (|v| v),
     flags: { stringy: true, structural: true });
